@@ -113,6 +113,7 @@ func specLinesText(lines []string, i int) string {
 //@   requires nn: rg != nil && rg.nodeGenerator != nil && rg.nodeGenerator.parser != nil && md.parserOK(rg.nodeGenerator.parser) && ctx != nil
 //@   modifies Node.children, Node.parent, list.List.view, list.Element.backOf, counter.n, bufio.Scanner.pos, bufio.Scanner.failed, markdown.Parser.isSharpRoot, markdown.Parser.spaces, markdown.Parser.sep, errSent, ctxDoneSeen, gcRecv, rcRecv, rcSentOK, lnConsumed, gcSent, lnNodes, lnRootCount, lnRejected
 //@ loop gtree.rootGeneratorPipeline.generate#1#1
+//@   invariant wg [C12]: wg != nil && wg.spawned == wg.added
 //@   invariant parser: md.parserOK(rg.nodeGenerator.parser)
 //@ func gtree.rootGeneratorPipeline.worker
 //@   requires nn: rg != nil && rg.nodeGenerator != nil && rg.nodeGenerator.parser != nil && ctx != nil && wg != nil
@@ -120,7 +121,8 @@ func specLinesText(lines []string, i int) string {
 //@   carries blocks: blockChan
 //@   carries rootc: rootChan
 //@   carries errc: errChan
-//@   modifies Node.children, Node.parent, list.List.view, list.Element.backOf, counter.n, bufio.Scanner.pos, bufio.Scanner.failed, markdown.Parser.isSharpRoot, markdown.Parser.spaces, markdown.Parser.sep, errSent, ctxDoneSeen, gcRecv, rcRecv, rcSentOK, lnConsumed, gcSent, lnNodes, lnRootCount, lnRejected
+//@   modifies Node.children, Node.parent, list.List.view, list.Element.backOf, counter.n, bufio.Scanner.pos, bufio.Scanner.failed, markdown.Parser.isSharpRoot, markdown.Parser.spaces, markdown.Parser.sep, errSent, ctxDoneSeen, gcRecv, rcRecv, rcSentOK, lnConsumed, gcSent, lnNodes, lnRootCount, lnRejected, wg.done
+//@   joins w [C12]: wg
 //@   after NewScanner: lnNodes := emptyseq(lnNodes)
 //@   after NewScanner: lnRootCount := 0
 //@   after NewScanner: lnConsumed := false
@@ -161,12 +163,15 @@ func specLinesText(lines []string, i int) string {
 //@ closure gtree.defaultGrowerPipeline.grow#1
 //@   requires nn: dg != nil && dg.defaultGrowerSimple != nil && ctx != nil
 //@   modifies Node.brnch.value, Node.brnch.path, errSent, ctxDoneSeen, gcRecv, rcRecv, rcSentOK, lnConsumed, gcSent
+//@ loop gtree.defaultGrowerPipeline.grow#1#1
+//@   invariant wg [C12]: wg != nil && wg.spawned == wg.added
 //@ func gtree.defaultGrowerPipeline.worker
 //@   requires nn: dg != nil && dg.defaultGrowerSimple != nil && ctx != nil && wg != nil
 //@   carries roots: rootChan
 //@   carries nodes: grownChan(dg.defaultGrowerSimple)
 //@   carries errc: errChan
-//@   modifies Node.brnch.value, Node.brnch.path, errSent, ctxDoneSeen, gcRecv, rcRecv, rcSentOK, lnConsumed, gcSent
+//@   modifies Node.brnch.value, Node.brnch.path, errSent, ctxDoneSeen, gcRecv, rcRecv, rcSentOK, lnConsumed, gcSent, wg.done
+//@   joins w [C12]: wg
 //@   ensures every [C01,C02]: ctxDoneSeen == old(ctxDoneSeen) && !errSent ==> drop(gcSent, len(old(gcSent))) == drop(rcRecv, len(old(rcRecv)))
 //@ loop gtree.defaultGrowerPipeline.worker#1
 //@   invariant every [C01,C02]: len(old(gcSent)) <= len(gcSent) && len(old(rcRecv)) <= len(rcRecv) && (ctxDoneSeen == old(ctxDoneSeen) && !errSent ==> drop(gcSent, len(old(gcSent))) == drop(rcRecv, len(old(rcRecv))))
@@ -199,6 +204,8 @@ func specLinesText(lines []string, i int) string {
 //@ closure gtree.defaultSpreaderPipeline.spread#1
 //@   requires nn: ds != nil && ds.defaultSpreaderSimple != nil && ctx != nil
 //@   modifies out, wfail, defaultSpreaderSimple.w, errSent, ctxDoneSeen, gcRecv, rcRecv, rcSentOK, lnConsumed, gcSent
+//@ loop gtree.defaultSpreaderPipeline.spread#1#1
+//@   invariant wg [C12]: wg != nil && wg.spawned == wg.added
 // What a text-spreader worker has written is, as long as no write was refused, the text of exactly the roots it received,
 // in that order (C01, per goroutine: what other workers write to the same writer in between is outside this model; the
 // mutex that keeps whole roots together is not modelled).
@@ -231,7 +238,8 @@ func lemmaRawRangePrefix(roots []*Node, r *Node, k int, i int) {
 //@   use lemma lemmaRawRangePrefix
 //@   ensures reported [C14]: wfail && !old(wfail) ==> errSent
 //@   ensures text [C01]: wfail == old(wfail) && !errSent ==> out[ds.defaultSpreaderSimple.w] == old(out[ds.defaultSpreaderSimple.w]) ++ specRawRange(gcRecv, len(old(gcRecv)), len(gcRecv))
-//@   modifies out, wfail, errSent, ctxDoneSeen, gcRecv, rcRecv, rcSentOK, lnConsumed, gcSent
+//@   modifies out, wfail, errSent, ctxDoneSeen, gcRecv, rcRecv, rcSentOK, lnConsumed, gcSent, wg.done
+//@   joins w [C12]: wg
 //@ loop gtree.defaultSpreaderPipeline.worker#1
 //@   invariant reported [C14]: wfail && !old(wfail) ==> errSent
 //@   invariant text [C01]: len(old(gcRecv)) <= len(gcRecv) && (wfail == old(wfail) && !errSent ==> out[ds.defaultSpreaderSimple.w] == old(out[ds.defaultSpreaderSimple.w]) ++ specRawRange(gcRecv, len(old(gcRecv)), len(gcRecv)))
@@ -327,6 +335,8 @@ func lemmaRawRangePrefix(roots []*Node, r *Node, k int, i int) {
 //@ closure gtree.defaultMkdirerPipeline.mkdir#1
 //@   requires nn: dm != nil && dm.defaultMkdirerSimple != nil && dm.defaultMkdirerSimple.fileConsiderer != nil && ctx != nil
 //@   modifies fsOps, fsFailed, errSent, mkSeen, ctxDoneSeen, gcRecv, rcRecv, rcSentOK, lnConsumed, gcSent
+//@ loop gtree.defaultMkdirerPipeline.mkdir#1#1
+//@   invariant wg [C12]: wg != nil && wg.spawned == wg.added
 // mkSeen: the roots for which this worker has started to create entries
 //@ ghost var mkSeen []*Node
 // a worker reports a failed file-system operation and a root that already exists on its stage's error channel (C06: every
@@ -335,7 +345,8 @@ func lemmaRawRangePrefix(roots []*Node, r *Node, k int, i int) {
 //@   requires nn: dm != nil && dm.defaultMkdirerSimple != nil && dm.defaultMkdirerSimple.fileConsiderer != nil && ctx != nil && wg != nil
 //@   carries roots: grownChan($g)
 //@   carries errc: errChan
-//@   modifies fsOps, fsFailed, errSent, mkSeen, ctxDoneSeen, gcRecv, rcRecv, rcSentOK, lnConsumed, gcSent
+//@   modifies fsOps, fsFailed, errSent, mkSeen, ctxDoneSeen, gcRecv, rcRecv, rcSentOK, lnConsumed, gcSent, wg.done
+//@   joins w [C12]: wg
 //@   after makeDirectoriesAndFiles: mkSeen := mkSeen ++ seqof(arg0)
 //@   ensures reported [C06]: fsFailed && !old(fsFailed) ==> errSent
 //@   ensures quiet [C06]: fsOps != old(fsOps) && !errSent ==> fsFailed == old(fsFailed)
@@ -358,6 +369,8 @@ func lemmaRawRangePrefix(roots []*Node, r *Node, k int, i int) {
 //@ closure gtree.defaultVerifierPipeline.verify#1
 //@   requires nn: dv != nil && dv.defaultVerifierSimple != nil && ctx != nil
 //@   modifies maps, errSent, vfSeen, ctxDoneSeen, gcRecv, rcRecv, rcSentOK, lnConsumed, gcSent
+//@ loop gtree.defaultVerifierPipeline.verify#1#1
+//@   invariant wg [C12]: wg != nil && wg.spawned == wg.added
 // a worker reports every root that does not match the directory on its stage's error channel (C08, per goroutine: vfSeen
 // collects the roots this worker has verified; as long as it has sent no error all of them match)
 //@ ghost var vfSeen []*Node
@@ -365,7 +378,8 @@ func lemmaRawRangePrefix(roots []*Node, r *Node, k int, i int) {
 //@   requires nn: dv != nil && dv.defaultVerifierSimple != nil && ctx != nil && wg != nil
 //@   carries roots: grownChan($g)
 //@   carries errc: errChan
-//@   modifies maps, errSent, ctxDoneSeen, gcRecv, rcRecv, rcSentOK, lnConsumed, gcSent, vfSeen
+//@   modifies maps, errSent, ctxDoneSeen, gcRecv, rcRecv, rcSentOK, lnConsumed, gcSent, vfSeen, wg.done
+//@   joins w [C12]: wg
 //@   after verifyRoot: vfSeen := vfSeen ++ seqof(arg0)
 //@   ensures mismatch [C08]: !errSent ==> (forall k int :: {vfSeen[k]} len(old(vfSeen)) <= k && k < len(vfSeen) ==> rootMatches(dv.defaultVerifierSimple, vfSeen[k]))
 //@   ensures every [C08]: !errSent ==> drop(vfSeen, len(old(vfSeen))) == drop(gcRecv, len(old(gcRecv)))
@@ -387,12 +401,15 @@ func lemmaRawRangePrefix(roots []*Node, r *Node, k int, i int) {
 //@ closure gtree.defaultWalkerPipeline.walk#1
 //@   requires nn: dw != nil && dw.defaultWalkerSimple != nil && ctx != nil
 //@   modifies cbTrace, cbFailed, cbLastErr, cbAfterFail, errSent, ctxDoneSeen, gcRecv, rcRecv, rcSentOK, lnConsumed, gcSent
+//@ loop gtree.defaultWalkerPipeline.walk#1#1
+//@   invariant wg [C12]: wg != nil && wg.spawned == wg.added
 //@ func gtree.defaultWalkerPipeline.worker
 //@   requires nn: dw != nil && dw.defaultWalkerSimple != nil && ctx != nil && wg != nil
 //@   param callback follows walkCallback
 //@   carries roots: grownChan($g)
 //@   carries errc: errChan
-//@   modifies cbTrace, cbFailed, cbLastErr, cbAfterFail, errSent, ctxDoneSeen, gcRecv, rcRecv, rcSentOK, lnConsumed, gcSent
+//@   modifies cbTrace, cbFailed, cbLastErr, cbAfterFail, errSent, ctxDoneSeen, gcRecv, rcRecv, rcSentOK, lnConsumed, gcSent, wg.done
+//@   joins w [C12]: wg
 
 // ---- the tree (pipeline_tree.go)
 // pipelineTreeOK(t, cfg): t is the treePipeline that newTreePipeline builds for cfg.
